@@ -639,15 +639,20 @@ def _varname(x):
     raise Unsupported(f"not a variable: {x!r}")
 
 
-def subst(s, mapping):
-    """mapping: {var name: Sym | number}.  Rebuilds through the smart constructors."""
+def subst(s, mapping, nodes=None):
+    """mapping: {var name: Sym | number}; nodes: {node id: Sym} replaces whole sub-terms (used to abstract a sub-term that was PROVED equal to a lemma variable).
+    Rebuilds through the smart constructors."""
     mp = {_varname(k): lift(v) for k, v in mapping.items()}
     memo = {}
+    nodes = nodes or {}
 
     def go(n):
         r = memo.get(n)
         if r is not None:
             return r
+        if n in nodes:
+            memo[n] = lift(nodes[n])
+            return memo[n]
         t = _nodes[n]
         op = t[0]
         if op in ("v", "bvar"):
